@@ -172,7 +172,8 @@ def obligations(tier):
             return out
         return f
     for method in ("truncated_svd", "symeig_svd", "randomized_svd", "callable", "unknown name"):
-        for opts in (dict(flip_sign=False), dict(flip_sign=True, u_based_flip_sign=False), dict(flip_sign=False, non_negative="nndsvd"), dict(flip_sign=False, mask=True)):
+        for opts in (dict(flip_sign=False), dict(flip_sign=True, u_based_flip_sign=False), dict(flip_sign=False, non_negative="nndsvd"), dict(flip_sign=False, mask=True),
+                     dict(flip_sign=True, mask=True), dict(flip_sign=True, non_negative="nndsvd", mask=True)):
             if method in ("callable", "unknown name") and opts != dict(flip_sign=False):
                 continue
             tag = ",".join(f"{a}={b}" for a, b in opts.items())
@@ -218,7 +219,10 @@ def obligations(tier):
                     want_pc.append("make_svd_non_negative")
                 out.append(("sign resolution / the non-negative transformation run exactly when requested", [c[0] for c in pc], want_pc))
                 if opts.get("flip_sign"):
-                    out.append(("svd_flip receives the method's U, V and the u_based flag", [pc[0][1] is rec[-1]["out"][0], pc[0][2] is rec[-1]["out"][2], pc[0][3]], [True, True, opts.get("u_based_flip_sign", True)]))
+                    out.append(("svd_flip receives the U, V of the LAST run of the method (after the imputation loop) and the u_based flag", [pc[0][1] is rec[-1]["out"][0], pc[0][2] is rec[-1]["out"][2], pc[0][3]], [True, True, opts.get("u_based_flip_sign", True)]))
+                if opts.get("non_negative"):
+                    nn_call = [c for c in pc if c[0] == "make_svd_non_negative"][0]
+                    out.append(("make_svd_non_negative receives the singular values of the last run and the requested variant", [nn_call[3] is rec[-1]["out"][1], nn_call[5]], [True, opts["non_negative"]]))
                 out.append(("the singular values returned are the method's", r["out"][1] is rec[-1]["out"][1], True))
                 return out
             obs.append(GOb(PID, f"{PID}/tenalg.svd:svd_interface/dispatch ∧ arguments ∧ options[method={method},{tag}]", "tensorly.tenalg.svd:svd_interface", setup, call, post, tenalg="core",
